@@ -40,7 +40,7 @@ VOCAB = ['do_return', 'retval_', 'break_', 'continue_', 'fscope', 'lscope', 'get
          'loop_body_1', 'if_body_1', 'else_body_1', 'break__1', 'continue__1', 'lscope_1', 'loop_test_1', 'itr_1']
 EXCL = ('no_try_else', 'no_for_target_rebind', 'no_lambda_capture_across_rebind', 'no_impure_chain_middle')
 _KEEP = []
-_USER_ID = re.compile(r'\b(x[0-3]|f[01]|g0|u[01]|v\d|y\d|q|r|c[01]|G[01]|h[12]|w\d+|i\d+|j\d+|it\d+|a|b|ex)\b')
+_USER_ID = re.compile(r'\b(x[0-3]|f[01]|g0|u[01]|v\d|y\d|q|r|c[01]|G[01]|h[12]|w\d+|i\d+|j\d+|it\d+|a|b|ex|z)\b')
 
 
 def budget(tier):
@@ -258,6 +258,8 @@ def shard(ctx, acc):
       cls.append('role:function_name')
     if prog['mapping'].get('ex'):
       cls.append('role:exception_variable')
+    if prog['mapping'].get('z'):
+      cls.append('role:comprehension_target')
     if any(k[0] in 'ij' and k[1:].isdigit() for k in prog['mapping']):
       cls.append('role:loop_target')
     if info.get('generator_slip'):
